@@ -75,7 +75,7 @@ def boundary_before_stage(mode, optical, radio, stage):
 
 
 def cfg_of(spec):
-    return sim.make_config(mode=spec["mode"], spectrum=spec["spectrum"], optical=spec["optical"], radio=spec["radio"], n=spec["n"], cloud=spec.get("cloud", "none"))
+    return sim.make_config(mode=spec["mode"], spectrum=spec["spectrum"], optical=spec["optical"], radio=spec["radio"], n=spec["n"], cloud=spec.get("cloud", "none"), logE=spec.get("logE"), extra=spec.get("extra"))
 
 
 def run_compute(spec, path, write_stages, crash_at=None, stage=None, fault_kind="error", depth="entry"):
@@ -335,7 +335,8 @@ def job(a):
             if status != "raised":
                 out.append(("exception_propagates", f"injected {fk} from stage {st}", "compute() returned normally" if status == "ok" else r))
             out += judge_file(path, spec, kb, final)
-        elif kind == "nowrite":
+        elif kind in ("nowrite", "nowrite_omitted"):
+            # ("nowrite_omitted": the write_stages keyword left out of the call altogether -- disabled is its default)
             st = case[1]
             cwd = os.getcwd()
             os.chdir(tmp)
@@ -354,7 +355,7 @@ def job(a):
             try:
                 before = sorted(os.listdir(tmp))
                 if st is None or boundary_before_stage(spec["mode"], spec["optical"], spec["radio"], st) is not None:
-                    status, r = run_compute(spec, path, False, stage=st, fault_kind=case[2] if len(case) > 2 else "error", depth=case[3] if len(case) > 3 else "entry")
+                    status, r = run_compute(spec, path, False if kind == "nowrite" else "omitted", stage=st, fault_kind=case[2] if len(case) > 2 else "error", depth=case[3] if len(case) > 3 else "entry")
                     if status == "raised_other":
                         out.append(("unstaged_run_completes", "compute() returns or raises the injected failure", r))
                 after = sorted(os.listdir(tmp))
@@ -380,6 +381,12 @@ def specs(tier):
         combos = [("Diffuse", (True, True), "mono"), ("Target", (True, True), "power"), ("Diffuse", (True, False), "power"), ("Target", (False, True), "mono")]
     for mode, (o, r), sp in combos:
         base.append(dict(mode=mode, optical=o, radio=r, spectrum=sp, n=150 if mode == "Target" else 60))
+    # sensitive detectors at high energy: most events trigger in BOTH channels, so the per-event integrand columns of the
+    # two channels are non-zero and differ from each other
+    low = {"detector": {"optical": {"photo_electron_threshold": 1e-6}, "radio": {"snr_threshold": 1e-6}}}
+    base.append(dict(mode="Target", optical=True, radio=True, spectrum="mono", n=150, logE=10.0, extra=low))
+    if tier == "thorough":
+        base.append(dict(mode="Diffuse", optical=True, radio=True, spectrum="mono", n=60, logE=10.0, extra=low))
     zero = [dict(mode="Diffuse", optical=True, radio=True, spectrum="mono", n=0), dict(mode="Target", optical=True, radio=True, spectrum="mono", n=10, seed=3)]
     return base, zero
 
@@ -398,6 +405,8 @@ def run(ctx):
             for fk in faults.FAULT_CLASSES:
                 jobs.append((sp, ("stage", st, fk)))
         jobs.append((sp, ("nowrite", None)))
+        jobs.append((sp, ("nowrite_omitted", None)))
+        jobs.append((sp, ("nowrite_omitted", "radio_eas" if sp["radio"] else "optical_eas", "error")))
         for st in faults.STAGES:
             for fk in faults.FAULT_CLASSES:
                 jobs.append((sp, ("nowrite", st, fk)))
